@@ -16,6 +16,7 @@ LEVEL = "model_checking"
 BOUNDS = {
     "models": "single normal; linked normals (y2 observed, tight and loose); 3-site chain; 2-step scan is outside",
     "proposals": "constant normal(0,1) [prior]; constant normal(c, s) with symbolic c; random walk normal(x_old, 0.3) through StaticRequest at the address; gen-fn random walk q(x_old) -> x ~ normal(x_old, .5) applied to the whole trace; two-address gen-fn proposal whose second draw depends on the first",
+    "argument changes": "Rejuvenate at a site whose call-site argument changes in the same edit, and a whole-trace Rejuvenate with changed top-level arguments (the ratio's numerator and the new trace use the new arguments)",
     "symbolic": "current values, observed values, proposal location/scale arguments (scale > 0), the proposed value (draw atom of the key)",
 }
 ASSUMPTIONS = [
@@ -131,10 +132,26 @@ def obligations(tier, seed):
                   lambda e: Rejuvenate(q_two, lambda chm: (chm["x"], chm["z"])), ("x", "z"),
                   lambda new, frm, e: lpn(new["x"], frm["x"], 0.5) + lpn(new["z"], frm["z"] + 0.5 * (new["x"] - frm["x"]), 0.4)))
 
-    for nm, gf, args, vals, lj, extra, mkreq, moved, lq in cases:
-        def f(key, args, vals, extra, gf=gf, lj=lj, mkreq=mkreq, moved=moved, lq=lq):
+    # 6. the model arguments change in the same edit (the rejuvenated site's own call-site arguments, or the top-level arguments):
+    #    the new trace and the numerator of the ratio are under the NEW arguments
+    @genjax.gen
+    def q_y1(y_old):
+        _ = genjax.normal(y_old, 0.5) @ "y1"
+
+    cases.append(("walk(s)@y2/linked+args", linked, (F(0.5),), {"y1": F(0.3), "y2": F(1.1)}, lp_linked, (F(0.3),),
+                  lambda e: static_at("y2", genjax.normal, lambda chm: (chm.get_value(), e[0])), ("y2",), lambda new, frm, e: lpn(new["y2"], frm["y2"], e[0]), (F(0.9),)))
+    cases.append(("q_y1/linked+args", linked, (F(0.5),), {"y1": F(0.3), "y2": F(1.1)}, lp_linked, (),
+                  lambda e: Rejuvenate(q_y1, lambda chm: (chm["y1"],)), ("y1",), lambda new, frm, e: lpn(new["y1"], frm["y1"], 0.5), (F(0.9),)))
+
+    for case in cases:
+        nm, gf, args, vals, lj, extra, mkreq, moved, lq = case[:9]
+        args2 = case[9] if len(case) > 9 else None
+
+        def f(key, args, vals, extra, args2, gf=gf, lj=lj, mkreq=mkreq, moved=moved, lq=lq):
             tr, _ = gf.importance(key, C.kw(**vals), args)
-            (tr2, w, rd, bwd), (prop_gf, prop_args, (prop_chm, prop_score, _)) = run(mkreq(extra), jax.random.fold_in(key, 1), tr, Diff.no_change(args))
+            old_args = args
+            (tr2, w, rd, bwd), (prop_gf, prop_args, (prop_chm, prop_score, _)) = run(mkreq(extra), jax.random.fold_in(key, 1), tr, Diff.no_change(args) if args2 is None else Diff.unknown_change(args2))
+            args = args if args2 is None else args2
             ch = tr2.get_choices()
             new = {k: ch[k] for k in vals}
             # the proposed value(s) as returned by the proposal
@@ -143,18 +160,18 @@ def obligations(tier, seed):
             else:
                 proposed = {k: prop_chm[k] for k in moved}
             expect_new = {**vals, **proposed}
-            ref_w = lj(new, args) + lq(vals, new, extra) - lj(vals, args) - lq(new, vals, extra)
+            ref_w = lj(new, args) + lq(vals, new, extra) - lj(vals, old_args) - lq(new, vals, extra)
             sc, _ = gf.assess(ch, args)
-            return (new, w, tr2.get_score(), tr2.get_score()), (expect_new, ref_w, lj(new, args), sc)
+            return (new, w, tr2.get_score(), tr2.get_score(), tuple(tr2.get_args())), (expect_new, ref_w, lj(new, args), sc, tuple(args))
 
-        def A(k, a, v, e, nm=nm):
-            out = [x[()] > 0 for x in a]  # model scale args
+        def A(k, a, v, e, a2, nm=nm):
+            out = [x[()] > 0 for x in a] + [x[()] > 0 for x in (a2 or ())]  # model scale args
             if nm.startswith("const") or nm.startswith("drift"):
                 out.append(e[1][()] > 0)
             elif nm.startswith("walk"):
                 out.append(e[0][()] > 0)
             return out
 
-        obs.append(Ob(f"C27/mh-ratio/{nm}", f, (KEY, args, vals, extra), assume=A, timeout_s=30,
+        obs.append(Ob(f"C27/mh-ratio/{nm}", f, (KEY, args, vals, extra, args2), assume=A, timeout_s=30,
                       note="new trace holds the proposed choices (others unchanged); weight == log p(x') + log q(x|x') - log p(x) - log q(x'|x); trace score == log p(x') == assess"))
     return obs
